@@ -181,7 +181,11 @@ def escapedComment(data: Union[bytes, str]) -> bytes:
     """
     if isinstance(data, str):
         data = data.encode("utf-8")
-    data = data.replace(b"-->", b"--&gt;")
+    # An HTML parser also ends a comment at "--!>", and ends it at once when
+    # its text starts with ">" or "->".
+    data = data.replace(b"-->", b"--&gt;").replace(b"--!>", b"--!&gt;")
+    if data.startswith((b">", b"->")):
+        data = b" " + data
     if data and data[-1:] == b"-":
         data += b" "
     return data
